@@ -89,7 +89,7 @@ fn res<T, F: Fn(&T) -> String>(r: Result<T, query::Unsupported>, f: F) -> String
 }
 
 // ------------------------------------------------------------------ details-level routing (what the dispatcher calls)
-fn d_contact(s1: &Sh, s2: &Sh, pos12: &Isometry<Real>, pred: f64) -> String {
+pub fn d_contact(s1: &Sh, s2: &Sh, pos12: &Isometry<Real>, pred: f64) -> String {
     match (s1, s2) {
         (Sh::Ball(r1), Sh::Ball(r2)) => fcontact(&details::contact_ball_ball(pos12, &Ball::new(*r1), &Ball::new(*r2), pred)),
         (Sh::HalfSpace(n), x) => { let g = dynsh(x); fcontact(&details::contact_halfspace_support_map(pos12, &hs(n), g.as_support_map().unwrap(), pred)) }
@@ -97,7 +97,7 @@ fn d_contact(s1: &Sh, s2: &Sh, pos12: &Isometry<Real>, pred: f64) -> String {
         _ => "noroute".into(),
     }
 }
-fn d_distance(s1: &Sh, s2: &Sh, pos12: &Isometry<Real>) -> String {
+pub fn d_distance(s1: &Sh, s2: &Sh, pos12: &Isometry<Real>) -> String {
     match (s1, s2) {
         (Sh::Ball(r1), Sh::Ball(r2)) => ff(details::distance_ball_ball(&Ball::new(*r1), &Point::from(pos12.translation.vector), &Ball::new(*r2))),
         (Sh::HalfSpace(n), x) => { let g = dynsh(x); ff(details::distance_halfspace_support_map(pos12, &hs(n), g.as_support_map().unwrap())) }
@@ -105,7 +105,7 @@ fn d_distance(s1: &Sh, s2: &Sh, pos12: &Isometry<Real>) -> String {
         _ => "noroute".into(),
     }
 }
-fn d_it(s1: &Sh, s2: &Sh, pos12: &Isometry<Real>) -> String {
+pub fn d_it(s1: &Sh, s2: &Sh, pos12: &Isometry<Real>) -> String {
     match (s1, s2) {
         (Sh::Ball(r1), Sh::Ball(r2)) => b(details::intersection_test_ball_ball(&Point::from(pos12.translation.vector), &Ball::new(*r1), &Ball::new(*r2))).into(),
         (Sh::HalfSpace(n), x) => { let g = dynsh(x); b(details::intersection_test_halfspace_support_map(pos12, &hs(n), g.as_support_map().unwrap())).into() }
@@ -113,7 +113,7 @@ fn d_it(s1: &Sh, s2: &Sh, pos12: &Isometry<Real>) -> String {
         _ => "noroute".into(),
     }
 }
-fn d_cp(s1: &Sh, s2: &Sh, pos12: &Isometry<Real>, margin: f64) -> String {
+pub fn d_cp(s1: &Sh, s2: &Sh, pos12: &Isometry<Real>, margin: f64) -> String {
     nopanic(|| match (s1, s2) {
         (Sh::Ball(r1), Sh::Ball(r2)) => fcp(&details::closest_points_ball_ball(pos12, &Ball::new(*r1), &Ball::new(*r2), margin)),
         (Sh::HalfSpace(n), x) => { let g = dynsh(x); fcp(&details::closest_points_halfspace_support_map(pos12, &hs(n), g.as_support_map().unwrap(), margin)) }
@@ -202,7 +202,7 @@ pub fn exec(func: &str, a: &mut Args) -> String {
 }
 
 // ------------------------------------------------------------------ generators
-fn gen_normal(r: &mut Rng, lat: bool) -> Vector<Real> {
+pub fn gen_normal(r: &mut Rng, lat: bool) -> Vector<Real> {
     if lat {
         match r.below(4) {
             0 => { let mut v = Vector::zeros(); v[r.below(3) as usize] = if r.bool() { 1.0 } else { -1.0 }; v }
@@ -221,7 +221,7 @@ fn gen_normal(r: &mut Rng, lat: bool) -> Vector<Real> {
     }
 }
 /// a shape of one of the kinds in `kinds` (0 ball, 1 cuboid, 2 halfspace, 3 capsule, 4 triangle, 5 segment)
-fn gen_shape(r: &mut Rng, lat: bool, kinds: &[u8]) -> Sh {
+pub fn gen_shape(r: &mut Rng, lat: bool, kinds: &[u8]) -> Sh {
     let small = if lat { 2.0 } else { 10.0 };
     match *r.pick(kinds) {
         0 => Sh::Ball(r.pos_extent(lat)),
@@ -238,7 +238,7 @@ fn gen_shape(r: &mut Rng, lat: bool, kinds: &[u8]) -> Sh {
         },
     }
 }
-fn size(s: &Sh) -> f64 {
+pub fn size(s: &Sh) -> f64 {
     match s {
         Sh::Ball(r) => *r,
         Sh::Cuboid(he) => he.norm(),
@@ -249,7 +249,7 @@ fn size(s: &Sh) -> f64 {
     }
 }
 /// two poses whose shapes are near each other (penetrating / touching / separated), never both with identity rotation
-fn gen_poses(r: &mut Rng, lat: bool, s1: &Sh, s2: &Sh) -> (Isometry<Real>, Isometry<Real>, Isometry<Real>) {
+pub fn gen_poses(r: &mut Rng, lat: bool, s1: &Sh, s2: &Sh) -> (Isometry<Real>, Isometry<Real>, Isometry<Real>) {
     let ts = if r.below(4) == 0 { 1000.0 } else { 20.0 };
     let p1 = d3::gen_iso(r, lat, ts);
     let mut p2 = d3::gen_iso(r, lat, 1.0);
@@ -262,7 +262,7 @@ fn gen_poses(r: &mut Rng, lat: bool, s1: &Sh, s2: &Sh) -> (Isometry<Real>, Isome
     p2.translation.vector = p1.translation.vector + off;
     (p1, p2, rel)
 }
-fn gen_param(r: &mut Rng, lat: bool) -> f64 {
+pub fn gen_param(r: &mut Rng, lat: bool) -> f64 {
     if lat { *r.pick(&[0.0, 0.25, 0.5, 1.0, 4.0]) } else if r.below(5) == 0 { 0.0 } else { r.logu(1e-3, 1e2) }
 }
 
